@@ -1595,6 +1595,30 @@ func (p c12) Run(w *mon.Worker, idx int) mon.Result {
 		return fail(err)
 	}
 	account(&plain, "plain")
+	// the same run the way a user at a terminal starts it: stdout is a character device and nothing switches colours
+	// off. What goes into the FILE is what `yq EXPR file` prints into a pipe all the same.
+	if slice == 0 {
+		if err := c.reset(); err != nil {
+			return fail(err)
+		}
+		sh := `exec "$@" > /dev/null`
+		argv := append([]string{"/bin/sh", "-c", sh, "sh", c.w.YqBin()}, c.pair.argv(true, c.paths)...)
+		var tty c12Run
+		tty.Res = mon.Run(mon.RunOpts{Dir: c.work, Env: []string{"PATH=/usr/bin:/bin", "HOME=/nonexistent", "LANG=C.UTF-8", "TERM=xterm-256color", "TMPDIR=" + c.tmpDir}, CPUSecs: 30, Wall: 60 * time.Second}, argv...)
+		c.evals++
+		c.observe(&tty)
+		switch {
+		case tty.Res.TimedOut:
+			tty.ExitCls = "timeout"
+		case tty.Res.Signal != 0 || tty.Res.Exit < 0:
+			tty.ExitCls = "lost"
+		case tty.Res.Exit == 0:
+			tty.ExitCls = "rc0"
+		default:
+			tty.ExitCls = "rcN"
+		}
+		account(&tty, "plain_chardev_stdout")
+	}
 
 	// recording run
 	rec, err := c.runTraced(nil)
